@@ -741,6 +741,10 @@ pub fn sizes<S: USet>(e: &mut Eng<S>, thorough: bool) {
             continue;
         }
         e.begin(&format!("sizes-bulk-{}", n));
+        // large or random growth draws only: with minimal growth steps (draws 0 / <= W) the one-at-a-time
+        // build makes hundreds of rebuilds of a 20 000-member table, which the crate does in a second and
+        // the model in minutes
+        e.force_style = Some(if e.rng.chance(1, 2) { 1 } else { 4 });
         let v: Vec<u64> = (0..n).map(|k| S::norm(k.wrapping_mul(0x9E3779B97F4A7C15) >> 20)).collect();
         e.op_collect(0, &v);
         e.op_new(1);
